@@ -36,6 +36,10 @@ CHECKS = {
    technique='symbolic execution of one cached generated function over 3-call histories with distinct z3-symbolic argument sets and symbolic user writes into returned arrays; per-call, per-element SMT equivalence with an independent interpreter',
    text='For every program of the family and call pattern (all arguments change / one changes / same dict reused) the k-th result of a function compiled once with constant caching equals the denotation of the k-th arguments for ALL argument values and ALL values a user may have written into previously returned writable arrays; argument arrays are element-identical before and after each call.',
    note='Histories of 3 calls (the generated script has two states: first run / rerun); longer histories, mesh-level memo tables (Basis._arg_*, topology._locate, System caches) are outside the claim.  A returned array that aliases an argument array is allowed: the reference is the argument value at call time.'),
+ 'C04': dict(level='translation_validation', design='4/C04',
+   technique='SMT equivalence of the real symbolic derivative (compiled, run on z3 terms, contracted with a symbolic direction) with forward-mode dual-number evaluation by an independent interpreter; counterexamples confirmed by finite differences on the real code',
+   text='For every differentiable program of the family and every float argument, z3 shows J.dx equals the dual-number tangent for ALL argument values and directions away from kinks (per output element), including differentiation through loops, scatter/gather, polynomial evaluation, inverse and determinant (2x2, 3x3) and second derivatives (first derivatives fed back in); integer/boolean programs have an identically zero derivative of the right shape.',
+   note='Declined: complex (holomorphic) differentiation - nutils raises NotImplementedError there; user-defined function._CustomEvaluable operations (no code to encode).  Rational identities that z3 cannot decide within the per-case budget are counted as unknown (inconclusive), never as success.  Uninterpreted transcendental functions: a rewrite relying on an analytic identity shows up as an unconfirmed model.'),
 }
 
 NOT_APPLICABLE = {
